@@ -1,6 +1,7 @@
 """C01 — shell-pair ECP integrals equal the exact matrix elements."""
 import os, sys, shutil, math
 from vcommon import *
+import tab_k
 import gen, pair_k
 
 PID = "C01"
@@ -127,6 +128,7 @@ def run(tier, replay=None):
                        "diffuse exponents + sign-changing local potentials. Deviations are re-evaluated with the tail cut / screens / type-1 abandon "
                        "decision forced the other way (hooks) and attributed to recorded findings only if that removes them")
     ok = coq_properties(res, PID)
+    tab_ok, tab_fail = tab_k.obligations(res, PID)
     if not ok:
         proof_broken(res, PID, "Properties_C01.v no longer checks")
     root = build_lib("rel")
@@ -181,4 +183,5 @@ def run(tier, replay=None):
     res.assumptions += ["the equality 'model = integral' off-centre is compared, not proved (partial)",
                         "G3 oracle in OCaml doubles; cases whose two refinement levels disagree are counted as oracle-inconclusive, never alarmed",
                         "the oracle resolves moderate exponents/distances only; the extremes of the property's ranges are covered at the primitive level by C12"]
+    tab_k.report(res, PID, tab_ok, tab_fail)
     return res.finish()
